@@ -174,7 +174,10 @@ CONFIG = {
     },
     'C15': {
         'profiles': [('admin-random', 40, 800), ('roles-matrix', 40, 324), ('flows', 25, 600), ('replace', 20, 500), ('genesis', 60, 600)],
-        'rules': [(r'TX:.*', 'S', None), (r'TX:.*', 'R', r'^(ok|err|panic)')],
+        'rules': [(r'TX:.*', 'S', None), (r'TX:.*', 'R', r'^(ok|err|panic)'),
+                  # a transaction that fails writes nothing to the chain whatever its handler did; whether the handler wrote to its own
+                  # branch before failing is compared with the proven handler (a difference has no failing input at transaction level)
+                  (r'TX:.*', 'WF', None)],
         'model_monitors': [M.mon_c15],
         'level_text': 'Theorem: for every transaction type, input, state and dependency plan the store after the transaction agrees with the store before on every entry outside the documented write set (Spec/WriteDoc.v); transactions that are not accepted change nothing; collections a type does not write are unchanged as lists. Tied to the Go code twice: the tracing store service records every raw key written by every call and they must lie inside the documented set evaluated by the extracted specification for the concrete request; the per-handler write primitives are regenerated from the Go source on every run.',
     },
